@@ -100,8 +100,20 @@ pub fn run_case(cx: &mut Ctx, mixed_kinds: bool) {
             for c in s.children.iter_mut() {
                 c.updates = c.updates.iter().map(|u| if u.is_finite() { u.abs().min(1e15) } else { 1.0 }).collect();
             }
-            cx.mixed_kind_names.push(s.name.clone());
+            // sometimes the added collector is a vector without children: it contributes no sample,
+            // so the family must simply be what the other collectors of that name make it
+            if s.kind.is_vec() && rng.chance(1, 3) {
+                s.children.clear();
+            }
             specs.push(s);
+        }
+        // the listed known finding is about families that really receive samples of more than one kind
+        let names: std::collections::BTreeSet<String> = specs.iter().map(|s| s.name.clone()).collect();
+        for n in names {
+            let kinds: std::collections::BTreeSet<u8> = specs.iter().filter(|s| s.name == n && !s.model_samples().is_empty()).map(|s| s.kind.mtype() as u8).collect();
+            if kinds.len() > 1 {
+                cx.mixed_kind_names.push(n);
+            }
         }
     }
     if specs.is_empty() {
@@ -116,6 +128,29 @@ pub fn run_case(cx: &mut Ctx, mixed_kinds: bool) {
     };
     let refs: Vec<&MetricSpec> = specs.iter().collect();
     let model = model_gather(&refs, regspec.prefix.as_deref(), &regspec.common);
+    if mixed_kinds {
+        // a collector of another kind whose descriptor EQUALS a registered one (same name, same constant
+        // label values, built from a separately constructed map) must be refused: admitting it is another
+        // way of mixing types in one family
+        if let Some(t) = specs.iter().find(|s| s.const_labels.len() >= 2 && s.kind != Kind::PullingGauge) {
+            let mut twin = t.clone();
+            let others: Vec<Kind> = Kind::ALL.iter().copied().filter(|k| k.mtype() != t.kind.mtype() && k.is_vec() == t.kind.is_vec() && *k != Kind::PullingGauge).collect();
+            twin.kind = *rng.pick(&others);
+            twin.children.iter_mut().for_each(|c| c.updates.clear());
+            if let (Ok(reg), Ok(a), Ok(b)) = (regspec.build(), t.build(), twin.build()) {
+                cx.part.count("equal_descriptor_other_kind_attempts", 1);
+                if reg.register(a.boxed()).is_ok() && reg.register(b.boxed()).is_ok() {
+                    cx.owned_violation(
+                        "C14",
+                        "collector-of-another-kind-with-an-equal-descriptor-admitted",
+                        "register",
+                        format!("{:?} {} and {:?} {} with the same constant labels {:?} are both registered", t.kind, t.name, twin.kind, twin.name, t.const_labels),
+                        specs_json(&[t.clone(), twin.clone()]),
+                    );
+                }
+            }
+        }
+    }
     let k = 3 + rng.usize_below(3);
     let mut gathers: Vec<Vec<MF>> = Vec::new();
     let mut orders: Vec<Vec<usize>> = Vec::new();
